@@ -34,6 +34,12 @@ CHECKS.update({
    note="Member values inside a class are sampled (seeded); handlers called in-process; routes outside the claim listed in evidence. Built by a sub-agent.", ref="6 C19"),
 })
 
+CHECKS["C16"] = dict(engine="http-auth",
+  technique="TLC on Auth.tla (request product token x route shape x target index x resource-name class x body shape: policy vs. reference monitor - Inv_Safe, Inv_Live, Inv_OnlyAuthentic, Inv_ReadNeverMutates, Inv_WriteNeverAdmin, Inv_NsNeverOther; restart machine issue/revoke/snapshot/compaction/restart - Inv_RevokedStaysRevoked, Inv_IssuedKeepsWorking, Inv_KeyStable) + every TLC case sent as concrete requests through the full server.NewServer handler chain on a real engine, judged by status class AND engine state delta AND foreign-namespace markers; every TLC history replayed with real Close/Open restarts",
+  text="TLC enumerates all 16 936 cases and all restart histories up to 5 operations (plus random walks), checks the headline statements of the property on the reference monitor and emits each case/history with the required outcome; each is executed on the real server and served/denied, state change and data leak are compared with the model.",
+  note="Trusted: the class table mapping routes to spec shapes (harness/cmd/vauth/table.go, exit 2 on an unmapped route), TLC. Routes whose index a middleware cannot determine have outcome 'any'. Handler chain called in process; crash restarts not modelled. Built by a sub-agent.",
+  ref="6 C16")
+
 NOT_YET = {}
 
 def main():
@@ -61,6 +67,7 @@ def main():
         "engines": [
             {"name": "kektor-writer", "path": "spec/Writer.tla + tools/check_C14.py + harness/cmd/vreplay/writer.go", "serves_properties": ["C14"],
              "kind_free_text": "TLA+ spec of the concurrent write path; TLC exhaustive; forced-schedule replay with blocking hooks"},
+            {"name": "http-auth", "path": "spec/Auth.tla + tools/check_C16.py + harness/cmd/vauth", "serves_properties": ["C16"], "kind_free_text": "TLA+ policy/reference-monitor product + restart machine, replayed on the real server"},
             {"name": "decay", "path": "spec/Decay.tla + tools/check_C15.py + harness/cmd/c15decay", "serves_properties": ["C15"], "kind_free_text": "TLA+ case analysis, one implementation test per TLC state"},
             {"name": "http-conformance", "path": "spec/Http.tla + tools/check_C19.py + harness/cmd/vhttp", "serves_properties": ["C19"], "kind_free_text": "TLA+ request/FS model, cases replayed on the real server"},
             {"name": "kektor-engine", "path": "spec/Kektor.tla + tools/engine_checks.py + harness/internal/eng", "serves_properties": ["C01", "C04", "C05", "C10", "C12"],
